@@ -42,15 +42,19 @@ def parseKey (kt : KT) (s : String) : Option Key :=
 
 /-- Go decodes the key into its typed form and the harness prints that: AddressWithWorkchain keeps only an int8 of
 the 32-bit workchain -/
+def normKey (kt : KT) (k : Key) : Key :=
+  match kt.fam with
+  | .a =>
+    let wc := Bits.bitsToInt (k.take 32)
+    let wc8 := (wc + 128) % 256 - 128
+    Bits.intToBits 32 wc8 ++ k.drop 32
+  | _ => k
+
 def showKey (kt : KT) (k : Key) : String :=
   match kt.fam with
   | .u => toString (Bits.bitsToNat k)
   | .i => toString (Bits.bitsToInt k)
-  | .b => hexOut (Bits.bitsToBytes k)
-  | .a =>
-    let wc := Bits.bitsToInt (k.take 32)
-    let wc8 := (wc + 128) % 256 - 128
-    hexOut (Bits.bitsToBytes (Bits.intToBits 32 wc8 ++ k.drop 32))
+  | _ => hexOut (Bits.bitsToBytes (normKey kt k))
 
 inductive VT | u32 | b256 | p | r deriving DecidableEq
 
@@ -140,6 +144,10 @@ def withTypes (a : List String) (f : KT → VT → List String → Option String
     | _, _ => "bad-op"
   | _ => "bad-op"
 
+/-- HashmapE.UnmarshalTLB followed by the key type's own decoding (lossy only for AddressWithWorkchain, see normKey) -/
+def decodeE (kt : KT) (vt : VT) (c : Cell) : Outcome (List (Key × Val)) :=
+  omap (unmarshalE (codecOf vt) kt.n c) fun d => d.map fun kv => (normKey kt kv.1, kv.2)
+
 def applyPuts (kt : KT) (d : List (Key × Val)) (ops : List (Key × Val)) : List (Key × Val) :=
   ops.foldl (fun d kv => put kt.lt d kv.1 kv.2) d
 
@@ -170,7 +178,7 @@ def opsC05 : List (String × Handler) := [
     match rest with
     | [t] => do
       let c ← parseCell t
-      pure (outStr (omap (unmarshalE (codecOf vt) kt.n c) (showEntries kt vt)))
+      pure (outStr (omap (decodeE kt vt c) (showEntries kt vt)))
     | _ => none),
   -- Unmarshal, then Get for each listed key
   ("hm.get", fun a => withTypes a fun kt vt rest =>
@@ -178,7 +186,7 @@ def opsC05 : List (String × Handler) := [
     | t :: keys => do
       let c ← parseCell t
       let ks ← keys.mapM (parseKey kt)
-      pure (outStr (omap (unmarshalE (codecOf vt) kt.n c) fun d =>
+      pure (outStr (omap (decodeE kt vt c) fun d =>
         " ".intercalate (ks.map fun k => match get d k with
           | some v => showVal vt v
           | none => "none")))
@@ -190,7 +198,7 @@ def opsC05 : List (String × Handler) := [
       let c ← parseCell t
       let ops ← es.mapM (parseEntry kt vt)
       pure (outStr (do
-        let d ← unmarshalE (codecOf vt) kt.n c
+        let d ← decodeE kt vt c
         let d' := applyPuts kt d ops
         let c' ← marshalE (codecOf vt) kt.n d'
         pure (showEntries kt vt d' ++ " | " ++ cellText c')))
